@@ -75,7 +75,8 @@ func WorldSteps() []Step {
 		s = append(s, cfgStep("cfg.app", assettypes.AppData{Name: name, ShortName: short, MinGovDeposit: sdk.NewInt(0), GovTimeInSeconds: 0, GenesisToken: gen}))
 	}
 	app("cswap", "cswap", []assettypes.MintGenesisToken{})
-	app("harbor", "hbr", []assettypes.MintGenesisToken{{AssetId: AHARBOR, GenesisSupply: sdk.NewInt(5_000_000_000_000), IsGovToken: true, Recipient: U("u6").String()}})
+	app("harbor", "hbr", []assettypes.MintGenesisToken{{AssetId: AHARBOR, GenesisSupply: sdk.NewInt(5_000_000_000_000), IsGovToken: true, Recipient: U("u6").String()},
+		{AssetId: A3, GenesisSupply: sdk.NewInt(1_000_000), IsGovToken: false, Recipient: U("u6").String()}})
 	app("commodo", "cmdo", []assettypes.MintGenesisToken{})
 
 	// ---- lend (commodo), as in x/auctionsV2/keeper/msg_server_test.go AddAppAssets
@@ -115,6 +116,14 @@ func WorldSteps() []Step {
 		BidFactor: d("0.01"), DebtLotSize: sdk.NewInt(2000000)}))
 	s = append(s, cfgStep("cfg.aucmap", bindings.MsgSetAuctionMappingForApp{AppID: AppHarbor, AssetIDs: A3, IsSurplusAuctions: true, IsDebtAuctions: false,
 		IsDistributor: false, AssetOutOraclePrices: false, AssetOutPrices: 1000000}))
+	// a second collector record of the same app whose collector asset is the first record's secondary asset and vice
+	// versa (the shape of x/collector/keeper's own test fixture), with its own auction mapping entry: genesis import
+	// walks the records in key order and maintains a per-app duplicate guard
+	s = append(s, cfgStep("cfg.collector", bindings.MsgSetCollectorLookupTable{AppID: AppHarbor, CollectorAssetID: AHARBOR, SecondaryAssetID: A3,
+		SurplusThreshold: sdk.NewInt(900000000000), DebtThreshold: sdk.NewInt(0), LockerSavingRate: d("0.0"), LotSize: sdk.NewInt(300000),
+		BidFactor: d("0.02"), DebtLotSize: sdk.NewInt(3000000)}))
+	s = append(s, cfgStep("cfg.aucmap", bindings.MsgSetAuctionMappingForApp{AppID: AppHarbor, AssetIDs: AHARBOR, IsSurplusAuctions: false, IsDebtAuctions: false,
+		IsDistributor: true, AssetOutOraclePrices: true, AssetOutPrices: 0}))
 	s = append(s, cfgStep("cfg.locker.whitelist", lockertypes.MsgAddWhiteListedAssetRequest{From: U("u6").String(), AppId: AppHarbor, AssetId: A3}))
 	dutch := liqv2types.DutchAuctionParam{Premium: d("1.2"), Discount: d("0.7"), DecrementFactor: sdk.NewInt(1)}
 	english := liqv2types.EnglishAuctionParam{DecrementFactor: sdk.NewInt(1)}
@@ -130,4 +139,13 @@ func WorldSteps() []Step {
 	s = append(s, cfgStep("cfg.esm.params", bindings.MsgAddESMTriggerParams{AppID: AppHarbor, TargetValue: sdk.NewCoin("uharbor", sdk.NewInt(500_000_000_000)),
 		CoolOffPeriod: 3600, AssetID: []uint64{A2, A4, A1}, Rates: []uint64{2000000, 2000000, 2000000}}))
 	return s
+}
+
+// ProbeNonGenesisSecondary is a governance-accepted collector record (WasmSetCollectorLookupTable and its query do not
+// look at genesis tokens) whose secondary asset is NOT a genesis token of its app. collector.InitGenesis rejects it
+// (ErrorAssetNotAddedForGenesisMinting) and returns: the record, every later record, the whole auction-mapping table and
+// the app-to-denoms mapping are silently missing after a re-import. Exercised in its own small run (see RunProbe).
+func ProbeNonGenesisSecondary() Step {
+	return cfgStep("cfg.collector", bindings.MsgSetCollectorLookupTable{AppID: AppLend, CollectorAssetID: A1, SecondaryAssetID: A2,
+		SurplusThreshold: sdk.NewInt(1), DebtThreshold: sdk.NewInt(0), LockerSavingRate: d("0.0"), LotSize: sdk.NewInt(1), BidFactor: d("0.02"), DebtLotSize: sdk.NewInt(1)})
 }
